@@ -305,8 +305,8 @@ def header_worker(analysis: Analysis, ver: str) -> List[dict]:
     domain = list(range(-2, 301))
     defined_types = sorted(mt.values())
     for t in defined_types + [max(defined_types) + 1]:
-        subs = sorted(idreq) + [other_internal] if t == internal else [0]
-        subs = subs + [9999]
+        # the id-exchange sub-type numbers are tried under every command: they are exempt for `internal` only
+        subs = sorted(set(idreq) | {0, other_internal}) + [9999]
         for sub in subs:
             for child in (255, 0, 7):
                 it = analysis.new_interp(ctx)
@@ -318,9 +318,21 @@ def header_worker(analysis: Analysis, ver: str) -> List[dict]:
                     st.mem[(m.key(), "a", name)] = Const(val)
                 outs = analysis.run_root(it, info.qual, [Const(ver)], m, st)
                 attrs = None
+                case = f"type={t} sub_type={sub} child_id={child}"
+                # a verdict taken from a schema cached in module-level state is judged through the cache key (R4m)
+                for kind, s, v in outs:
+                    built = False
+                    for e in s.events:
+                        if e.kind == "call" and e.name == "vol.validate":
+                            built = True
+                        if e.kind == "setitem" and isinstance(e.recv, V) and e.recv.key()[0] == "global" and len(e.args) == 2:
+                            out.append({"memo": "store", "glob": ":".join(e.recv.key()[1:]), "key": repr(e.args[0].key()), "case": case, "schema": e.args[1]})
+                    if not built:
+                        hit = [e for e in s.events if e.kind == "call" and e.name.startswith("?") and isinstance(e.recv, V) and "'global'" in repr(e.recv.key())]
+                        out.append({"memo": "hit" if hit else "none", "glob": repr(hit[0].recv.key()) if hit else "", "case": case, "where": f"{hit[0].func}:{hit[0].line}" if hit else info.qual})
                 for kind, s, v in outs:
                     for e in s.events:
-                        if e.kind == "call" and e.name == "vol.validate" and e.func == info.qual:
+                        if e.kind == "call" and e.name == "vol.validate":
                             stack = [e.recv]
                             while stack and attrs is None:
                                 x = stack.pop()
@@ -329,7 +341,6 @@ def header_worker(analysis: Analysis, ver: str) -> List[dict]:
                                 elif isinstance(x, ExtObj):
                                     stack.extend(x.args)
                                     stack.extend(x.kwargs.values())
-                case = f"type={t} sub_type={sub} child_id={child}"
                 if attrs is None:
                     out.append({"case": case, "field": "*", "ok": None, "detail": "schema(self) call with an attribute dict not found in Message.validate"})
                     continue
@@ -350,6 +361,10 @@ def header_worker(analysis: Analysis, ver: str) -> List[dict]:
                                 x["v"] = [fix(y) for y in x["v"]]
                         return x
                     forms[name] = descr.norm(fix(d))
+                for r in out:
+                    if r.get("memo") == "store" and r["case"] == case and "schema" in r:
+                        r.pop("schema")
+                        r["forms"] = repr(sorted((k, repr(v)) for k, v in forms.items()))
                 # expected acceptance sets from the statement
                 if t == internal and sub in idreq:
                     child_ok = set(domain)
@@ -409,13 +424,32 @@ def header_rules(analysis: Analysis, res: RuleResult) -> None:
     versions = sorted(analysis.refl["consts"], key=vkey)
     results = common.pmap(analysis, header_worker, versions)
     n = 0
+    memo: Dict[tuple, Dict[str, list]] = {}
+    hits = []
     for ver, rows in zip(versions, results):
         for r in rows:
+            if "memo" in r:
+                if r["memo"] == "store":
+                    memo.setdefault((r["glob"], r["key"]), {}).setdefault(r.get("forms", "?"), []).append(f"{ver}: {r['case']}")
+                elif r["memo"] == "hit":
+                    hits.append((ver, r))
+                else:
+                    res.add("C03-R4", f"{ver}: every path of Message.validate applies a schema when {r['case']}", False, "mysensors/message.py", f"a path through {r['where']} returns without applying a schema built from the message")
+                continue
             n += 1
             if r["ok"] is None:
                 raise AnalysisError(f"C03-R4 {ver} {r['case']} {r['field']}: {r['detail']}")
             res.add("C03-R4", f"{ver}: {r['field']} rule when {r['case']}", r["ok"], "mysensors/message.py", r["detail"])
     res.extra["header_cases"] = n
+    if memo or hits:
+        # R4m: a memoised schema is the right one only if the cache key determines it
+        for (glob, key), forms in sorted(memo.items()):
+            ok = len(forms) == 1
+            cases = [c[0] for c in forms.values()]
+            res.add("C03-R4m", f"cache {glob} key {key} determines the schema", ok, "mysensors/message.py", f"{sum(len(c) for c in forms.values())} cases build the same schema" if ok else f"the same cache key is filled with different schemas by `{cases[0]}` and `{cases[1]}`: whichever line comes first decides the verdict of the other")
+        if hits and not memo:
+            ver, r = hits[0]
+            res.add("C03-R4m", f"{ver}: cached schema used when {r['case']}", False, "mysensors/message.py", f"{r['where']} applies a schema taken from module-level state {r['glob']} that no analysed path of Message.validate fills")
 
 
 # ------------------------------------------------------------------------------------ R5
